@@ -660,20 +660,56 @@ func (g *gen) eventScope() string {
 func (g *gen) volumeHistory() {
 	r := g.r
 	g.tr.Line("reset profile=V", "")
-	g.w.doVolumeOp(g.tr, parseLine("vop name=V.AddVolume v=1 n=8"))
+	vop := func(f string, a ...any) { g.w.doVolumeOp(g.tr, parseLine("vop name="+fmt.Sprintf(f, a...))) }
+	restart := func() {
+		g.w.doRestart(g.tr, parseLine(fmt.Sprintf("restart mode=%s ev=test", vhlib.Pick(r, "clean", "clean", "abrupt"))))
+	}
+	vop("V.AddVolume v=1 n=8")
 	g.w.b.vols = append(g.w.b.vols, 1)
-	g.w.doVolumeOp(g.tr, parseLine("vop name=V.Write r=1"))
-	g.w.doVolumeOp(g.tr, parseLine("vop name=V.StoreTemp r=2 exp=50"))
+	vop("V.Write r=1")
+	vop("V.StoreTemp r=2 exp=50")
 	g.sweep(g.addContractLine(false, true))
 	g.sweep(fmt.Sprintf("name=S.UpdateSettings v=%d", 1+r.Intn(9)) + " ks=[] crash=[]")
 	g.sweep(fmt.Sprintf("name=P.Update v=%d", 1+r.Intn(9)) + " ks=[] crash=[]")
-	g.w.doRestart(g.tr, parseLine("restart mode=clean ev=test"))
-	if r.Chance(1, 2) {
-		g.w.doVolumeOp(g.tr, parseLine("vop name=V.SetReadOnly v=1 ro=1"))
+	restart()
+	nvol := 1
+	if r.Chance(2, 3) {
+		vop("V.AddVolume v=2 n=4")
+		vop("V.Write r=3")
+		nvol = 2
 	}
-	g.w.doVolumeOp(g.tr, parseLine("vop name=V.AddVolume v=2 n=4"))
-	g.w.doVolumeOp(g.tr, parseLine("vop name=V.Write r=3"))
-	g.w.doRestart(g.tr, parseLine(fmt.Sprintf("restart mode=%s ev=test", vhlib.Pick(r, "clean", "abrupt"))))
+	// data files that disappear and come back around restarts: missing at one restart and back at the next,
+	// missing twice in a row, back without a restart in between, one of two volumes missing, read-only volumes
+	hidden := map[int]bool{}
+	for round := 0; round < 5; round++ {
+		for v := 1; v <= nvol; v++ {
+			x := r.Intn(6)
+			if round == 0 && v == 1 {
+				x = 0 // every history loses a data file before some restart and has it back at a later one
+			}
+			switch {
+			case x < 2 && !hidden[v]:
+				vop("V.HideFile v=%d", v)
+				hidden[v] = true
+			case x < 4 && hidden[v]:
+				vop("V.RestoreFile v=%d", v)
+				hidden[v] = false
+			case x == 4 && hidden[v]: // comes back and goes away again before anybody restarts
+				vop("V.RestoreFile v=%d", v)
+				vop("V.HideFile v=%d", v)
+			}
+		}
+		if r.Chance(1, 5) {
+			vop("V.SetReadOnly v=%d ro=%d", 1+r.Intn(nvol), r.Intn(2))
+		}
+		restart()
+	}
+	for v := 1; v <= nvol; v++ {
+		if hidden[v] {
+			vop("V.RestoreFile v=%d", v)
+		}
+	}
+	restart()
 }
 
 // resumeHistory: chain batches interrupted by failures and kills, resumed from the persisted marker.
@@ -804,7 +840,7 @@ func TestEngine(t *testing.T) {
 		kinds := []string{"S", "M", "I", "Mh", "R", "S", "F", "V", "Md", "B"}
 		if cfg.Extra["c18"] == "1" {
 			// C18: histories with managers and restarts
-			kinds = []string{"M", "Mh", "V", "F", "Md", "I", "Mh", "F", "M", "F"}
+			kinds = []string{"M", "V", "V", "F", "Md", "I", "Mh", "F", "V", "F"}
 		}
 		kind := kinds[(int(cfg.Seed%10)+i)%10]
 		if only != "" {
